@@ -91,6 +91,8 @@ type FnCtx struct {
 	localMaps map[string]bool
 	refArr   map[string]bool
 	siteCount int
+	relMode  bool
+	relLeft  *Frame
 	suppress int
 	siteOrd  map[ssa.Instruction]int
 	lastSite string
@@ -128,6 +130,8 @@ type Frame struct {
 	entrySt  *State
 	failed   map[int]string // propagates clause ord -> ghost local name
 	tagStr   string
+	relSites map[string]*relPoint
+	relTag   string
 }
 
 type deferRec struct {
@@ -136,7 +140,18 @@ type deferRec struct {
 	block *ssa.BasicBlock
 }
 
+type relPoint struct {
+	vals  map[*ssa.Phi]Val
+	st    *State
+	cond  string
+	args  map[string]Val
+	block *ssa.BasicBlock
+	in    ssa.Instruction
+}
+
 type loopInfo struct {
+	relEntry, relHead *relPoint
+	relLatch          []*relPoint
 	head   *ssa.BasicBlock
 	ord    int
 	blocks map[*ssa.BasicBlock]bool
@@ -231,6 +246,9 @@ func (fc *FnCtx) onHavoc(name, term string, prev *State) {
 func (fc *FnCtx) addOblig(o *Oblig) {
 	if fc.suppress > 0 {
 		return // inside a specification-level evaluation (closure applied in a contract)
+	}
+	if fc.relMode && !strings.HasPrefix(o.Kind, "rel") && !strings.HasSuffix(o.Name, "/rel-cover") {
+		return // the relational pass only produces relational obligations (unary ones belong to the ordinary pass)
 	}
 	fc.seq++
 	o.block = fc.curBlock
